@@ -259,7 +259,7 @@ def snap_diff(s1, s2, ctol, vrel=16 * EPS):
             if x.shape != y.shape or np.any(np.abs(x - y) > ctol):
                 bad.append(key)
         elif key == "subregions":
-            if x.keys() != y.keys() or any(
+            if list(x) != list(y) or any(  # the listing order is part of it (first listed wins)
                     np.any(np.abs(x[k][0] - y[k][0]) > ctol)
                     or np.any(np.abs(x[k][1] - y[k][1]) > ctol) for k in x):
                 bad.append(key)
@@ -303,7 +303,7 @@ def check_rotated_field(ctx, su, f0, g, info):
     # subregions move with the cells
     exp_sub = {name: rot_box(spec.vertex(lo), spec.vertex(hi), R, a, b, k)
                for name, (lo, hi) in su.boxes.items()}
-    ok = gs["subregions"].keys() == exp_sub.keys() and all(
+    ok = list(gs["subregions"]) == list(exp_sub) and all(
         np.all(np.abs(gs["subregions"][m][0] - exp_sub[m][0]) <= ctol)
         and np.all(np.abs(gs["subregions"][m][1] - exp_sub[m][1]) <= ctol) for m in exp_sub)
     ctx.check("C12.geometry.subregions", ok,
